@@ -281,6 +281,13 @@ def run(ctx):
         R.one('CONCAT', tuple(parts), ('CONCAT', len(parts), tc), fm)
         R.one('CONCATENATE', tuple(parts), ('CONCATENATE', len(parts), tc),
               fm)
+    # TRIM: only the blank U+0020 is a space
+    if ctx.shard == 0 or thorough:
+        for t in ('a\tb', 'abc\n', '\ta', 'a\u00a0b', '\u00a0a\u00a0',
+                  'a\u3000b', ' a\t b ', 'a \n b', '\r\n', 'a\x0bb',
+                  ' \t ', 'x\u2003y'):
+            R.one('TRIM', (t,), ('TRIM', 'other-whitespace', repr(t)), True)
+            R.one('LEN', (t,), ('LEN', 'other-whitespace', repr(t)))
     # numbers and booleans passed as text
     nontext = [123, 0, -5, 12.5, 0.25, 2.0, -3.0, 1e3, True, False, 100000]
     for v in nontext:
